@@ -586,7 +586,8 @@ def check_immediate_forms(prop, tier, repo, verif):
     srcs += [('proc.foo loc_load.0 end begin exec.foo end', 'loc_load.0 with 0 locals', None), ('proc.foo.1 loc_load.0 end begin exec.foo end', 'loc_load.0 with 1 local', 'ASM'),
              ('proc.foo.1 loc_load.1 end begin exec.foo end', 'loc_load.1 with 1 local', None), ('proc.foo.3 loc_storew.2 end begin exec.foo end', 'loc_storew.2 with 3 locals', 'ASM'),
              ('proc.foo.3 locaddr.3 end begin exec.foo end', 'locaddr.3 with 3 locals', None), ('begin caller end', 'caller outside a kernel', None),
-             ('begin exec.nothing end', 'undefined procedure', None), ('export.foo add end begin exec.foo end', 'export in an executable', None)]
+             ('begin exec.nothing end', 'undefined procedure', None), ('use.std::math::u64 use.std::math::u256->u64 begin push.1 end', 'two imports under one module name', None),
+             ('use.std::math::u64 use.std::math::u256->big begin push.1 end', 'two imports under different names', 'ASM'), ('export.foo add end begin exec.foo end', 'export in an executable', None)]
     n = 0
     for src, label, exp in srcs:
         n += 1
